@@ -398,3 +398,26 @@ package twig
 //@   ensures[C08] err == nil && operator == ">=" && bothNum() ==> typeIs(ret0, "bool") && unboxAs(ret0, "bool") == f_le(rnum(), lnum())
 //@   ensures[C08] err == nil && operator == "-" && bothNum() ==> typeIs(ret0, "float64") && unboxAs(ret0, "float64") == f_sub(lnum(), rnum())
 //@   ensures[C08] err == nil && operator == "*" && bothNum() ==> typeIs(ret0, "float64") && unboxAs(ret0, "float64") == f_mul(lnum(), rnum())
+
+// ---------------------------------------------------------------- escape (C07)
+// ghost content of strings.Builder values
+//@ ghost sb (Array Int Str)
+// the built-in fallback: output == concatenation over the bytes of the input of the image of each
+// byte (the five references of the table for & < > " ', the byte itself otherwise)
+//@ define escOf(S, K) escUpTo(S, K, "&amp;", "&lt;", "&gt;", "&quot;", "&#39;")
+//@ impl (*RenderContext).ApplyFilter props: C07
+//@   loop 1 invariant[C07] 0 <= i && i <= len(str) && gsel(sb, b) == escOf(str, i)
+//@   ensures[C07] err == nil && (name == "e" || name == "escape") && (ctx.env == nil || !has(ctx.env.filters, name)) ==> typeIs(ret0, "string") && unboxAs(ret0, "string") == escOf(fn_ToString_0(ctx, value), len(fn_ToString_0(ctx, value)))
+// the registered filter (both names are bound to the same method) is html.EscapeString of the
+// string form of the value
+//@ func escapeHTML props: C07
+//@   function
+//@   ensures ret == htmlEscape(s)
+//@ func (*CoreExtension).filterEscape props: C07
+//@   ensures err == nil && typeIs(ret0, "string") && unboxAs(ret0, "string") == htmlEscape(fn_toString_0(value))
+//@ func toString props: C07 C19
+//@   function
+//@ func NewFilterViolation props: C06 C07
+//@   ensures ret != nil
+//@ func NewFunctionViolation props: C06
+//@   ensures ret != nil
